@@ -70,3 +70,61 @@ def data_stream(props, name="data-cosim"):
         res.distribution["lockstep_chunks_compared"] = len(batch_lines)
         return res
     return stream
+
+
+def meta_stream(props, name="meta-cosim"):
+    import cosim_meta as CM
+
+    def stream(tier):
+        R0 = C.rng("conc-meta")
+        res = Result(name)
+        n = {"quick": 200, "search": 1000, "thorough": 10000}[tier]
+        batch, owners, runs = [], [], []
+        for i in range(n):
+            seed = R0.getrandbits(48)
+            R = random.Random(seed)
+            scn = CM.gen_scenario(R)
+            SR = random.Random(seed ^ 0x9E3779B97F4A)
+            choices = []
+
+            def choose(names, ops, SR=SR, choices=choices):
+                c = SR.choice(names)
+                choices.append(c)
+                return c
+            run = CM.run_real(scn, choose)
+            A = CM.analyse(run)
+            lines = CM.driver_lines(run)
+            for k, l in enumerate(lines):
+                batch.append(l)
+                owners.append((i, k))
+            comp = {"pool_arg": scn["pool_arg"], "handler": scn["handler"], "block": scn["block"],
+                    "requests": [(r["id"], r["method"], r["kind"]) for r in scn["requests"]], "chunks": len(scn["chunks"])}
+            runs.append((seed, comp))
+            res.evaluations += 1
+            res.traces += 1
+            res.distribution["chunks"] += len(run.chunks)
+            res.distribution["requests"] += len(scn["requests"])
+            res.distribution["adapter_calls"] += len(A.calls)
+            res.distribution["handler_notifications"] += len(A.handler)
+            res.distribution["pool_%s" % scn["pool_arg"]] += 1
+            res.distribution["blocked_call_scenarios"] += 1 if scn["block"] else 0
+            conc = any(a["tid"] != b["tid"] and a["begin"] < b["begin"] and (a["end"] is None or b["begin"] < a["end"]) for a in A.calls for b in A.calls)
+            if conc or scn["block"] or len(scn["requests"]) > 1:
+                res.nontrivial.add(seed)
+            if run.errors:
+                res.violation("thread-died", "an exception escaped a library thread: %s" % (run.errors,), {"seed": seed, "scenario": comp})
+            for p in props:
+                CM.ORACLES[p](run, A, lambda sig, what, seed=seed, comp=comp, choices=choices, p=p: res.violations.append(
+                    {"signature": sig, "what": what, "property": p, "input": {"seed": seed, "scenario": comp, "schedule": choices[:300]}})
+                    if len(res.violations) < 50 else None)
+            if i < 2:
+                res.sample({"scenario": comp, "schedule_prefix": choices[:30], "wire": [b.decode() for _, b in run.sent][:8]})
+        out = C.run_driver(batch)
+        bad = set()
+        for (i, k), line, ans in zip(owners, batch, out):
+            if ans != "ok" and i not in bad:
+                bad.add(i)
+                res.mismatch({"seed": runs[i][0], "scenario": runs[i][1], "chunk_line": line[:300], "line_no": k}, ans[:600], "real server")
+        res.distribution["lockstep_chunks_compared"] = len(batch)
+        return res
+    return stream
